@@ -302,6 +302,34 @@ fn crash_body(c: &CrashCase) -> Result<(), String> {
     Ok(())
 }
 
+/// The only handle of receiver R travels in a message that arrives complete but cannot be
+/// decoded (the field before R is not valid for the type expected on the receiving side). The
+/// program never gets R, so after the failed receive R exists nowhere and sends to it must fail.
+fn undecodable_body(c: &(bool, bool)) -> Result<(), String> {
+    let (big, via_try) = *c;
+    unsafe {
+        libc::signal(libc::SIGPIPE, libc::SIG_DFL);
+    }
+    let (t2, r2) = ipc::channel::<u32>().map_err(|e| e.to_string())?;
+    let (ctx, crx) = ipc::channel::<(Vec<u8>, IpcReceiver<u32>)>().map_err(|e| e.to_string())?;
+    let m = OsIpcSender::get_max_fragment_size();
+    let len = if big { if m == usize::MAX { 10000 } else { 2 * m + 64 } } else { 48 };
+    ctx.send((vec![0xffu8; len], r2)).map_err(|e| e.to_string())?;
+    t2.send(7).map_err(|e| format!("send to a receiver in transit failed: {:?}", e))?;
+    let crx: IpcReceiver<(String, IpcReceiver<u32>)> = crx.to_opaque().to();
+    let r = if via_try { crx.try_recv().map_err(|e| format!("{:?}", e)) } else { crx.recv().map_err(|e| format!("{:?}", e)) };
+    match r {
+        Ok(_) => return Err("MACHINERY: bytes that are not UTF-8 decoded as a String".into()),
+        Err(e) => obs(format!("decode error: {}", &e[..e.len().min(40)])),
+    }
+    for i in 0..2 {
+        if t2.send(8 + i).is_ok() {
+            return Err(format!("the message carrying the receiver could not be decoded and was discarded, so the receiver exists nowhere, yet send #{} to it reported success", i));
+        }
+    }
+    Ok(())
+}
+
 pub fn crash_cases(_tier: Tier) -> Vec<CrashCase> {
     let mut v = Vec::new();
     for big in [false, true] {
@@ -424,11 +452,24 @@ pub fn run(tier: Tier, _part: bool) -> i32 {
         rep.machinery(format!("crash cases did not produce both a complete and an interrupted carrier message: {:?}", couts));
     }
     rep.set("crash_case_outcomes", json!(couts.iter().cloned().collect::<Vec<_>>()));
+    let dcs: Vec<(bool, bool)> = vec![(false, false), (false, true), (true, false), (true, true)];
+    let mut dfails = Vec::new();
+    sweep(&dcs, 60.0, &|_| Cfg { sched: true, fake_sndbuf: Some(4608), ..Default::default() }, &undecodable_body, &mut |_, c, out| {
+        n += 1;
+        match super::describe(out) {
+            Ok(_) => {},
+            Err(e) if e.contains("MACHINERY") => rep.machinery(e),
+            Err(e) => dfails.push((*c, e)),
+        }
+    });
+    for (c, e) in dfails {
+        rep.fail(&format!("{} :: undecodable carrier (3-packet={}, try_recv={})", e, c.0, c.1), json!({"engine": "E2-undecodable", "case": c}));
+    }
     let scs = scenarios(tier);
     let tot = e1::run_scenarios(&mut rep, &scs, &e1::strict_judge, if tier.is_quick() { 20.0 } else { 1500.0 });
     rep.set("evaluations", json!(n + tot.execs));
     rep.set("distinct_nontrivial", json!(distinct.len() as u64 + couts.len() as u64 + tot.with_switch));
-    rep.set("rule", json!("E2 case = (stream of <= 3 (5) sends over {small, 3-packet} x {plain, sender+region attached}, position of the drop 0..=n, dropper in {same thread, other thread, forked process that exits}, receiver held directly / inside an undelivered message of a carrier that is dropped / in transit and unpacked at that position), SIGPIPE reset to its default disposition, single task under the scheduler; E2-crash case = (carrier message of 1 or 3 packets holding the only handle of a receiver, its sending process killed before transport call k = 0..=4 (0..=9), carrier observed with recv or a receiver set): interrupted => sends to the lost receiver fail, complete => the send made in transit is delivered after unpacking; E1: one evaluation = one schedule (<= bound deviations) of a dropper task racing the stream; non-trivial = at least one send after the drop"));
+    rep.set("rule", json!("E2 case = (stream of <= 3 (5) sends over {small, 3-packet} x {plain, sender+region attached}, position of the drop 0..=n, dropper in {same thread, other thread, forked process that exits}, receiver held directly / inside an undelivered message of a carrier that is dropped / in transit and unpacked at that position), SIGPIPE reset to its default disposition, single task under the scheduler; E2-crash case = (carrier message of 1 or 3 packets holding the only handle of a receiver, its sending process killed before transport call k = 0..=4 (0..=9), carrier observed with recv or a receiver set): interrupted => sends to the lost receiver fail, complete => the send made in transit is delivered after unpacking; E2-undecodable: the carrier message (1 or 3 packets) arrives but fails to decode before the receiver field (recv / try_recv) => sends to the lost receiver fail; E1: one evaluation = one schedule (<= bound deviations) of a dropper task racing the stream; non-trivial = at least one send after the drop"));
     rep.set("exhaustive", json!(!tot.capped));
     rep.sample(json!({"case": cs[cs.len() / 2]}));
     rep.assume("sends racing the drop may return either result; only sends begun after the drop completed must fail, only sends returned before it began must succeed");
@@ -436,6 +477,14 @@ pub fn run(tier: Tier, _part: bool) -> i32 {
 }
 
 pub fn replay(tier: Tier, v: &Value) -> i32 {
+    if v["engine"] == "E2-undecodable" {
+        let Ok(c) = serde_json::from_value::<(bool, bool)>(v["case"].clone()) else { return 2 };
+        for r in 0..2 {
+            let out = crate::exec::run_one(&Cfg { sched: true, fake_sndbuf: Some(4608), ..Default::default() }, 60.0, &|| undecodable_body(&c));
+            println!("replay round {}: {:?} -> {:?}", r, c, super::describe(&out));
+        }
+        return 0;
+    }
     if v["engine"] == "E2-crash" {
         let Ok(c) = serde_json::from_value::<CrashCase>(v["case"].clone()) else { return 2 };
         for r in 0..2 {
